@@ -210,10 +210,9 @@ Proof.
     rewrite <- L.
     rewrite (set_range_app' I1 (map (@length Z) c) (enc_part_node_count r) inst (length c))
       by apply map_length.
-    unfold new_bump.
     assert (1 <= length c) by (destruct c; simpl; [congruence|lia]).
-    replace (length I1 + length c - 1 + 1) with (length (P1 ++ map (@length Z) c))
-      by (rewrite app_length, map_length; lia).
+    replace (new_bump (length I1) (length I1 + length c - 1)) with (length (P1 ++ map (@length Z) c))
+      by (unfold new_bump; rewrite app_length, map_length; lia).
     rewrite (app_assoc P1), (app_assoc I1).
     rewrite (IH (P1 ++ map (@length Z) c) (I1 ++ repeat inst (length c)) (S inst)); [|assumption|].
     2:{ rewrite !app_length, repeat_length, map_length. lia. }
@@ -230,4 +229,440 @@ Proof.
   intro W. unfold derive_index, derive_index_gen.
   pose proof (fold_cells cs [] [] 0 W eq_refl) as H. simpl in H.
   unfold new_bump in H. rewrite H. reflexivity.
+Qed.
+
+(* ------------------------------------------------------------------------- *)
+(* decoding                                                                   *)
+(* ------------------------------------------------------------------------- *)
+Lemma split_by_concat {A} (ps : list (list A)) extra :
+  split_by (map (@length A) ps) (concat ps ++ extra) = ps.
+Proof.
+  induction ps as [|p r IH]; simpl; [reflexivity|].
+  rewrite <- app_assoc.
+  rewrite firstn_app, firstn_all, Nat.sub_diag. simpl. rewrite app_nil_r.
+  f_equal. rewrite skipn_app_exact. exact IH.
+Qed.
+
+Lemma enc_pnc_as_map (cs : cells) : enc_part_node_count cs = map (@length Z) (concat cs).
+Proof. unfold enc_part_node_count. rewrite concat_map. reflexivity. Qed.
+
+Lemma rows_of_exact {B} (fill : B) w1 (rows : list (list B)) :
+  rows_of (length rows) w1 fill rows = map (fun r => r ++ repeat fill (w1 - length r)) rows.
+Proof.
+  unfold rows_of. rewrite firstn_all2 by (rewrite map_length; lia).
+  rewrite map_length, Nat.sub_diag. simpl. apply app_nil_r.
+Qed.
+
+Lemma wf_parts_nonempty (cs : cells) : wf_cells cs -> Forall (fun c : list (list Z) => c <> []) cs.
+Proof. intro W. eapply Forall_impl; [|exact W]. intros c [H _]. exact H. Qed.
+
+Lemma decode_indexed_contiguous_cells (cs : cells) :
+  wf_cells cs ->
+  decode_indexed_contiguous (length cs) (cell_of_part_spec cs) (enc_part_node_count cs) (enc_nodes cs)
+  = pad3 cs.
+Proof.
+  intro W. unfold decode_indexed_contiguous, cell_of_part_spec, pad3.
+  rewrite (max_parts_blocks cs) by (apply wf_parts_nonempty; exact W).
+  rewrite uniq_blocks.
+  2:{ apply Forall_map. eapply Forall_impl; [|exact (wf_parts_nonempty cs W)].
+      intros [|a r] Ha; simpl; [congruence|lia]. }
+  rewrite map_length.
+  rewrite enc_pnc_as_map.
+  set (w2 := list_max (map (@length Z) (concat cs))).
+  unfold enc_nodes. rewrite <- (app_nil_r (concat (concat cs))). rewrite split_by_concat.
+  rewrite concat_map.
+  replace (map (@length (list Z)) cs) with (map (@length (list (option Z))) (map (map (pad w2)) cs))
+    by (rewrite map_map; apply map_ext; intro c; apply map_length).
+  replace (length cs) with (length (map (map (pad w2)) cs)) at 1 2 by apply map_length.
+  rewrite select_blocks. rewrite rows_of_exact.
+  rewrite !map_map. apply map_ext. intro c. rewrite !map_length. reflexivity.
+Qed.
+
+Lemma read_bounds_cells (cs : cells) ring :
+  wf_cells cs ->
+  read_bounds (container_for cs true ring) (enc_nodes cs) = pad3 cs.
+Proof.
+  intro W. unfold read_bounds, read_bounds_gen, container_for, n_cells, nodes_per_geometry. simpl.
+  fold derive_index. rewrite derive_index_cells by assumption.
+  unfold enc_node_count at 1. rewrite map_length.
+  apply decode_indexed_contiguous_cells. assumption.
+Qed.
+
+(* all cells have exactly one part: no part_node_count needed *)
+Lemma list_max_ones {A} (l : list A) : list_max (map (fun _ => 1) l) - 1 = 0.
+Proof. induction l; simpl; [reflexivity|]. destruct (list_max (map (fun _ => 1) l)); simpl in *; lia. Qed.
+
+Lemma pad3_single (ps : list (list Z)) :
+  pad3 (map (fun p => [p]) ps) = map (fun p => [pad (list_max (map (@length Z) ps)) p]) ps.
+Proof.
+  unfold pad3. rewrite !map_map. simpl.
+  replace (concat (map (fun p : list Z => [p]) ps)) with ps
+    by (induction ps; simpl; congruence).
+  apply map_ext. intro p. rewrite list_max_ones. reflexivity.
+Qed.
+
+Lemma sum_single (p : list Z) : sum (map (@length Z) [p]) = length p.
+Proof. simpl. lia. Qed.
+
+Lemma decode_contiguous_single (ps : list (list Z)) :
+  decode_contiguous (map (@length Z) ps) (concat ps) = pad3 (map (fun p => [p]) ps).
+Proof.
+  unfold decode_contiguous. rewrite <- (app_nil_r (concat ps)). rewrite split_by_concat.
+  rewrite pad3_single. reflexivity.
+Qed.
+
+Lemma concat_singletons {A} (l : list A) : concat (map (fun x => [x]) l) = l.
+Proof. induction l; simpl; congruence. Qed.
+
+Lemma read_bounds_single_part (ps : list (list Z)) :
+  read_bounds (container_for (map (fun p => [p]) ps) false None) (enc_nodes (map (fun p => [p]) ps))
+  = pad3 (map (fun p => [p]) ps).
+Proof.
+  unfold read_bounds, read_bounds_gen, container_for, nodes_per_geometry. simpl.
+  unfold enc_node_count, enc_nodes. rewrite map_map. rewrite concat_singletons.
+  replace (map (fun x : list Z => sum (map (@length Z) [x])) ps) with (map (@length Z) ps)
+    by (apply map_ext; intro; simpl; lia).
+  apply decode_contiguous_single.
+Qed.
+
+(* points without a node_count variable *)
+Lemma read_bounds_points (xs : list Z) :
+  read_bounds {| g_nc := None; g_pnc := None; g_ring := None; g_nnodes := length xs |} xs
+  = pad3 (map (fun x => [[x]]) xs).
+Proof.
+  unfold read_bounds, read_bounds_gen, nodes_per_geometry. simpl.
+  replace (decode_contiguous (repeat 1 (length xs)) xs)
+    with (decode_contiguous (map (@length Z) (map (fun x => [x]) xs)) (concat (map (fun x => [x]) xs))).
+  2:{ rewrite concat_singletons. f_equal. rewrite map_map. simpl.
+      induction xs; simpl; congruence. }
+  rewrite decode_contiguous_single. rewrite map_map. reflexivity.
+Qed.
+
+(* interior rings *)
+Lemma read_ring_cells (cs : cells) (rs : list (list Z)) :
+  wf_cells cs -> same_parts rs cs ->
+  read_ring (container_for cs true (Some rs)) = Some (pad2 rs).
+Proof.
+  intros W S. unfold read_ring, read_ring_gen, container_for, n_cells, nodes_per_geometry. simpl.
+  fold derive_index. rewrite derive_index_cells by assumption. f_equal.
+  unfold enc_node_count. rewrite map_length.
+  unfold decode_indexed, cell_of_part_spec, pad2.
+  unfold same_parts in S. rewrite <- S.
+  assert (Forall (fun y : list Z => y <> []) rs) as Fr.
+  { assert (Forall (fun n => 1 <= n) (map (@length Z) rs)) as F1.
+    { rewrite S. apply Forall_map. eapply Forall_impl; [|exact (wf_parts_nonempty cs W)].
+      intros [|a r] Ha; simpl; [congruence|lia]. }
+    rewrite Forall_map in F1. eapply Forall_impl; [|exact F1]. intros [|a r] Ha; simpl in *; [lia|congruence]. }
+  rewrite (max_parts_blocks rs) by assumption.
+  rewrite uniq_blocks.
+  2:{ apply Forall_map. eapply Forall_impl; [|exact Fr]. intros [|a r] Ha; simpl; [congruence|lia]. }
+  rewrite map_length.
+  replace (length cs) with (length rs)
+    by (rewrite <- (map_length (@length Z) rs), S; apply map_length).
+  rewrite <- (map_map (fun v => select v (blocks 0 (map (@length Z) rs)) (concat rs)) (map Some)).
+  rewrite select_blocks.
+  replace (length rs) with (length (map (map (@Some Z)) rs)) by apply map_length.
+  rewrite rows_of_exact. rewrite map_map. apply map_ext. intro r.
+  unfold pad. rewrite map_length. reflexivity.
+Qed.
+
+(* shapes *)
+Lemma bounds_shape_cells (cs : cells) ring :
+  wf_cells cs ->
+  bounds_shape (container_for cs true ring)
+  = [length cs; list_max (map (@length (list Z)) cs); list_max (map (@length Z) (concat cs))].
+Proof.
+  intro W. unfold bounds_shape, bounds_shape_gen, container_for, n_cells, nodes_per_geometry. simpl.
+  fold derive_index. rewrite derive_index_cells by assumption.
+  unfold cell_of_part_spec. rewrite (max_parts_blocks cs) by (apply wf_parts_nonempty; exact W).
+  unfold enc_node_count. rewrite map_length. rewrite enc_pnc_as_map. reflexivity.
+Qed.
+
+Lemma coord_shape_geometry (g : container) :
+  coord_shape true (bounds_shape g) = [n_cells g].
+Proof. unfold bounds_shape, bounds_shape_gen. destruct (g_pnc g); reflexivity. Qed.
+
+(* ------------------------------------------------------------------------- *)
+(* the writer                                                                 *)
+(* ------------------------------------------------------------------------- *)
+Lemma compressed_app {A} (l1 l2 : list (option A)) :
+  compressed (l1 ++ l2) = compressed l1 ++ compressed l2.
+Proof. induction l1 as [|[a|] r IH]; simpl; [reflexivity| |]; rewrite IH; reflexivity. Qed.
+
+Lemma compressed_somes {A} (l : list A) : compressed (map Some l) = l.
+Proof. induction l; simpl; congruence. Qed.
+
+Lemma compressed_nones {A} n : compressed (repeat (@None A) n) = [].
+Proof. induction n; simpl; auto. Qed.
+
+Lemma compressed_pad {A} w (l : list A) : compressed (pad w l) = l.
+Proof. unfold pad. rewrite compressed_app, compressed_somes, compressed_nones. apply app_nil_r. Qed.
+
+Lemma compressed_concat {A} (ls : list (list (option A))) :
+  compressed (concat ls) = concat (map compressed ls).
+Proof. induction ls; simpl; [reflexivity|]. rewrite compressed_app, IHls. reflexivity. Qed.
+
+Lemma map_repeat {A B} (f : A -> B) x n : map f (repeat x n) = repeat (f x) n.
+Proof. induction n; simpl; congruence. Qed.
+
+Lemma concat_repeat_nil {A} n : concat (repeat (@nil A) n) = [].
+Proof. induction n; simpl; auto. Qed.
+
+Definition padcell (w1 w2 : nat) (c : list (list Z)) : list (list (option Z)) :=
+  map (pad w2) c ++ repeat (repeat None w2) (w1 - length c).
+
+Lemma compressed_padcell w1 w2 c : compressed (concat (padcell w1 w2 c)) = concat c.
+Proof.
+  unfold padcell. rewrite compressed_concat, map_app, concat_app.
+  rewrite map_map. rewrite (map_ext _ (fun p => p) (fun p => compressed_pad w2 p)). rewrite map_id.
+  rewrite map_repeat. rewrite compressed_nones. rewrite concat_repeat_nil. apply app_nil_r.
+Qed.
+
+Lemma write_nodes_padcells w1 w2 (cs : cells) :
+  compressed (concat (concat (map (padcell w1 w2) cs))) = concat (concat cs).
+Proof.
+  induction cs as [|c r IH]; [reflexivity|]. cbn [map concat].
+  rewrite !concat_app, compressed_app, compressed_padcell, IH. reflexivity.
+Qed.
+
+Lemma write_nodes_pad3 (cs : cells) : write_nodes (pad3 cs) = enc_nodes cs.
+Proof. exact (write_nodes_padcells _ _ cs). Qed.
+
+Lemma count_some_pad w (p : list Z) : count_some (pad w p) = length p.
+Proof. unfold count_some. rewrite compressed_pad. reflexivity. Qed.
+
+Lemma count_some_nones n : count_some (repeat (@None Z) n) = 0.
+Proof. unfold count_some. rewrite compressed_nones. reflexivity. Qed.
+
+Lemma counts_padcell w1 w2 c :
+  map count_some (padcell w1 w2 c) = map (@length Z) c ++ repeat 0 (w1 - length c).
+Proof.
+  unfold padcell. rewrite map_app, map_map, map_repeat, count_some_nones.
+  f_equal. apply map_ext. intro p. apply count_some_pad.
+Qed.
+
+Lemma sum_repeat0 n : sum (repeat 0 n) = 0.
+Proof. induction n; simpl; auto. Qed.
+
+Lemma node_count_padcell w1 w2 c :
+  sum (map count_some (padcell w1 w2 c)) = sum (map (@length Z) c).
+Proof. rewrite counts_padcell, sum_app, sum_repeat0. lia. Qed.
+
+Lemma write_node_count_pad3 (cs : cells) : write_node_count (pad3 cs) = enc_node_count cs.
+Proof.
+  unfold write_node_count, pad3, enc_node_count. rewrite map_map. apply map_ext. intro c.
+  exact (node_count_padcell _ _ c).
+Qed.
+
+Lemma nonzero_app l1 l2 : nonzero (l1 ++ l2) = nonzero l1 ++ nonzero l2.
+Proof. unfold nonzero. apply filter_app. Qed.
+
+Lemma nonzero_zeros n : nonzero (repeat 0 n) = [].
+Proof. induction n; simpl; auto. Qed.
+
+Lemma nonzero_pos l : Forall (fun n => 1 <= n) l -> nonzero l = l.
+Proof.
+  intro F. unfold nonzero. apply filter_all. intros x Hx. rewrite Forall_forall in F.
+  apply F in Hx. destruct x; [lia|reflexivity].
+Qed.
+
+Lemma part_counts_padcells w1 w2 (cs : cells) :
+  wf_cells cs ->
+  nonzero (concat (map (map count_some) (map (padcell w1 w2) cs))) = concat (map (map (@length Z)) cs).
+Proof.
+  intro W. induction cs as [|c r IH]; [reflexivity|]. cbn [map concat].
+  inversion W as [|? ? [Hc Fc] Wr]; subst.
+  rewrite nonzero_app, IH by assumption. f_equal.
+  rewrite counts_padcell, nonzero_app, nonzero_zeros, app_nil_r.
+  apply nonzero_pos. apply Forall_map. eapply Forall_impl; [|exact Fc].
+  intros [|a p] Ha; simpl; [congruence|lia].
+Qed.
+
+Lemma part_counts_pad3 (cs : cells) :
+  wf_cells cs -> nonzero (part_counts (pad3 cs)) = enc_part_node_count cs.
+Proof. intro W. exact (part_counts_padcells _ _ cs W). Qed.
+
+Lemma n_part_slots_pad3 (cs : cells) :
+  cs <> [] -> n_part_slots (pad3 cs) = list_max (map (@length (list Z)) cs).
+Proof.
+  intro H. destruct cs as [|c r]; [congruence|].
+  assert (length c <= list_max (map (@length (list Z)) (c :: r))) by (apply list_max_ge; simpl; auto).
+  unfold n_part_slots, pad3. cbn [map].
+  rewrite app_length, map_length, repeat_length. cbn [map] in H0. lia.
+Qed.
+
+Lemma write_ring_pad2 (rs : list (list Z)) : write_ring (pad2 rs) = concat rs.
+Proof.
+  unfold write_ring, pad2. rewrite compressed_concat, map_map.
+  f_equal. rewrite <- (map_id rs) at 2. apply map_ext. intro r. apply compressed_pad.
+Qed.
+
+Lemma same_parts_lengths (rs : list (list Z)) (cs : cells) :
+  same_parts rs cs -> length (concat rs) = length (enc_part_node_count cs).
+Proof.
+  intro S. rewrite length_concat. unfold enc_part_node_count. rewrite length_concat, map_map.
+  unfold same_parts in S. rewrite S. f_equal. apply map_ext. intro c. symmetry. apply map_length.
+Qed.
+
+(* what the writer produces for well-formed cells *)
+Lemma write_cells_no_ring (cs : cells) :
+  wf_cells cs -> cs <> [] ->
+  write (pad3 cs) None =
+  Ok {| w_nodes := enc_nodes cs; w_nc := enc_node_count cs;
+        w_pnc := if Nat.eqb (list_max (map (@length (list Z)) cs)) 1 then None
+                 else Some (enc_part_node_count cs);
+        w_ring := None |}.
+Proof.
+  intros W H. unfold write, write_gen, write_part_node_count. simpl.
+  rewrite n_part_slots_pad3 by assumption.
+  rewrite write_nodes_pad3, write_node_count_pad3, part_counts_pad3 by assumption.
+  rewrite andb_true_r.
+  destruct (Nat.eqb (list_max (map (@length (list Z)) cs)) 1); reflexivity.
+Qed.
+
+Lemma write_cells_ring (cs : cells) (rs : list (list Z)) :
+  wf_cells cs -> cs <> [] -> same_parts rs cs ->
+  write (pad3 cs) (Some (pad2 rs)) =
+  Ok {| w_nodes := enc_nodes cs; w_nc := enc_node_count cs;
+        w_pnc := Some (enc_part_node_count cs); w_ring := Some (concat rs) |}.
+Proof.
+  intros W H S. unfold write, write_gen, write_part_node_count. simpl.
+  rewrite andb_false_r.
+  rewrite write_nodes_pad3, write_node_count_pad3, part_counts_pad3, write_ring_pad2 by assumption.
+  rewrite (same_parts_lengths rs cs S), Nat.eqb_refl. reflexivity.
+Qed.
+
+(* max number of parts = 1 together with well-formedness: every cell has one part *)
+Lemma single_part_of_max (cs : cells) :
+  wf_cells cs -> list_max (map (@length (list Z)) cs) = 1 ->
+  cs = map (fun p => [p]) (concat cs).
+Proof.
+  intros W M. assert (Forall (fun k => k <= 1) (map (@length (list Z)) cs)) as F
+    by (apply list_max_le; lia).
+  clear M. induction cs as [|c r IH]; simpl; [reflexivity|].
+  inversion W as [|? ? [Hc _] Wr]; subst. inversion F as [|? ? Hl Fr]; subst.
+  destruct c as [|p [|q c']]; simpl in *; [congruence| |lia].
+  f_equal. apply IH; assumption.
+Qed.
+
+(* round trip: the written variables, read again, present the same cells *)
+Lemma roundtrip_no_ring (cs : cells) :
+  wf_cells cs -> cs <> [] ->
+  exists w, write (pad3 cs) None = Ok w /\
+            accepted (container_of w) = true /\
+            read_bounds (container_of w) (w_nodes w) = pad3 cs /\
+            read_ring (container_of w) = None.
+Proof.
+  intros W H. rewrite write_cells_no_ring by assumption. eexists. split; [reflexivity|].
+  destruct (Nat.eqb (list_max (map (@length (list Z)) cs)) 1) eqn:E.
+  - apply Nat.eqb_eq in E. pose proof (single_part_of_max cs W E) as S.
+    splits; try reflexivity. unfold container_of. simpl.
+    rewrite S at 1 2 3.
+    unfold read_bounds, read_bounds_gen, nodes_per_geometry. simpl.
+    unfold enc_node_count, enc_nodes. rewrite map_map. rewrite concat_singletons.
+    replace (map (fun x : list Z => sum (map (@length Z) [x])) (concat cs))
+      with (map (@length Z) (concat cs)) by (apply map_ext; intro; simpl; lia).
+    rewrite decode_contiguous_single. rewrite <- S. reflexivity.
+  - splits; try reflexivity. unfold container_of. simpl.
+    apply (read_bounds_cells cs None W).
+Qed.
+
+Lemma roundtrip_ring (cs : cells) (rs : list (list Z)) :
+  wf_cells cs -> cs <> [] -> same_parts rs cs ->
+  exists w, write (pad3 cs) (Some (pad2 rs)) = Ok w /\
+            accepted (container_of w) = true /\
+            read_bounds (container_of w) (w_nodes w) = pad3 cs /\
+            read_ring (container_of w) = Some (pad2 rs).
+Proof.
+  intros W H S. rewrite write_cells_ring by assumption. eexists. split; [reflexivity|].
+  splits; try reflexivity.
+  - apply (read_bounds_cells cs (Some rs) W).
+  - apply (read_ring_cells cs rs W S).
+Qed.
+
+(* consistency of what is written, for ANY array (any shape, any pattern of missing data) *)
+Lemma length_compressed_concat {A} (ls : list (list (option A))) :
+  length (compressed (concat ls)) = sum (map count_some ls).
+Proof.
+  induction ls as [|l r IH]; simpl; [reflexivity|].
+  rewrite compressed_app, app_length, IH. reflexivity.
+Qed.
+
+Lemma sum_node_count (a : arr3) : sum (write_node_count a) = length (write_nodes a).
+Proof.
+  unfold write_node_count, write_nodes. induction a as [|c r IH]; simpl; [reflexivity|].
+  rewrite concat_app, compressed_app, app_length, (length_compressed_concat c), IH. reflexivity.
+Qed.
+
+Lemma sum_part_counts (a : arr3) : sum (part_counts a) = length (write_nodes a).
+Proof.
+  unfold part_counts, write_nodes. induction a as [|c r IH]; simpl; [reflexivity|].
+  rewrite sum_app, concat_app, compressed_app, app_length, (length_compressed_concat c), IH. reflexivity.
+Qed.
+
+Lemma sum_nonzero l : sum (nonzero l) = sum l.
+Proof. induction l as [|[|n] r IH]; simpl; auto. Qed.
+
+Lemma nonzero_all_pos l : Forall (fun n => 1 <= n) (nonzero l).
+Proof.
+  apply Forall_forall. intros x Hx. unfold nonzero in Hx. apply filter_In in Hx as [_ Hx].
+  destruct x; simpl in Hx; [discriminate|lia].
+Qed.
+
+Lemma written_consistent (a : arr3) (ring : option arr2) (w : written) :
+  write a ring = Ok w ->
+  sum (w_nc w) = length (w_nodes w) /\
+  length (w_nc w) = length a /\
+  (forall p, w_pnc w = Some p -> sum p = length (w_nodes w) /\ Forall (fun n => 1 <= n) p) /\
+  (forall r, w_ring w = Some r -> exists p, w_pnc w = Some p /\ length p = length r) /\
+  (w_ring w = None <-> ring = None).
+Proof.
+  unfold write, write_gen, write_part_node_count. intro H.
+  destruct ring as [r0|]; simpl in H.
+  - rewrite andb_false_r in H.
+    destruct (Nat.eqb (length (nonzero (part_counts a))) (length (write_ring r0))) eqn:E; [|discriminate].
+    inversion H; subst; clear H. simpl. splits.
+    + apply sum_node_count.
+    + unfold write_node_count. apply map_length.
+    + intros p Hp. inversion Hp; subst. split; [|apply nonzero_all_pos].
+      rewrite sum_nonzero. apply sum_part_counts.
+    + intros r Hr. inversion Hr; subst. eexists. split; [reflexivity|]. apply Nat.eqb_eq. exact E.
+    + split; intro; discriminate.
+  - rewrite andb_true_r in H.
+    destruct (Nat.eqb (n_part_slots a) 1); inversion H; subst; clear H; simpl; splits;
+      try apply sum_node_count; try (unfold write_node_count; apply map_length);
+      try (intros p Hp; inversion Hp; subst; split; [rewrite sum_nonzero; apply sum_part_counts|apply nonzero_all_pos]);
+      try (intros r Hr; discriminate); try (split; reflexivity).
+Qed.
+
+(* ------------------------------------------------------------------------- *)
+(* non-vacuity                                                                *)
+(* ------------------------------------------------------------------------- *)
+Local Open Scope Z_scope.
+Definition example_cells : cells :=
+  [ [[1;2;3]; [4]]; [[5;6]]; [[7]]; [[8;9;10]; [11;12]; [13]] ].
+Definition example_rings : list (list Z) := [[0;1]; [0]; [0]; [0;1;1]].
+Definition example_bounds : arr3 :=
+  [ [[Some 1; Some 2; Some 3]; [Some 4; None; None]; [None; None; None]];
+    [[Some 5; Some 6; None]; [None; None; None]; [None; None; None]];
+    [[Some 7; None; None]; [None; None; None]; [None; None; None]];
+    [[Some 8; Some 9; Some 10]; [Some 11; Some 12; None]; [Some 13; None; None]] ].
+Definition example_ring_array : arr2 :=
+  [ [Some 0; Some 1; None]; [Some 0; None; None]; [Some 0; None; None]; [Some 0; Some 1; Some 1] ].
+Local Close Scope Z_scope.
+
+Lemma example_wf : wf_cells example_cells /\ example_cells <> [] /\ same_parts example_rings example_cells.
+Proof.
+  splits; [|discriminate|reflexivity].
+  unfold example_cells. repeat (constructor; [split; [discriminate|repeat (constructor; [discriminate|])]; constructor|]).
+  constructor.
+Qed.
+
+Lemma example_decode :
+  exists cs rs, wf_cells cs /\ cs <> [] /\ same_parts rs cs /\
+    read_bounds (container_for cs true (Some rs)) (enc_nodes cs) = example_bounds /\
+    read_ring (container_for cs true (Some rs)) = Some example_ring_array.
+Proof.
+  exists example_cells, example_rings. destruct example_wf as [W [N S]].
+  splits; try assumption; vm_compute; reflexivity.
 Qed.
